@@ -279,8 +279,12 @@ def ae_post(st0, st1, a, res):
         ("C16 deviation >= rate x (halts so far + 1) on a running target: the market stops at once, the halt is time-stamped and counted",
          z3.Implies(halt, z3.And(z3.Not(run1[mk.term]), z3.Not(flag1), st1.read(ev, "halting_time_started").term == st0.read(mk, "time").term,
                                  st1.read(ev, "activation_count").term == cnt0 + 1))),
+        ("C16, C09 the halt is recorded for the session in which it happened (the one that is resumed later)",
+         z3.Implies(halt, z3.And(z3.Not(st1.read(ev, "halted_session").none), st1.read(ev, "halted_session").term == cs.term))),
         ("C16 otherwise nothing changes", z3.Implies(z3.Not(halt), z3.And(run1[mk.term] == run0[mk.term], flag1 == flag0, st1.read(ev, "activation_count").term == cnt0,
-                                                                             st1.read(ev, "halting_time_started").term == st0.read(ev, "halting_time_started").term))),
+                                                                             st1.read(ev, "halting_time_started").term == st0.read(ev, "halting_time_started").term,
+                                                                             st1.read(ev, "halted_session").none == st0.read(ev, "halted_session").none,
+                                                                             z3.Implies(z3.Not(st0.read(ev, "halted_session").none), st1.read(ev, "halted_session").term == st0.read(ev, "halted_session").term)))),
         ("C16 no other market is touched", z3.ForAll([m], z3.Implies(m != mk.term, run1[m] == run0[m])))]
 
 
